@@ -54,7 +54,7 @@ inductive Op (α : Type) where
   | chol (r : Op α)
   | cholU (r : Op α)         -- CholLinearOperator(R, upper=True): Rᵀ R
   | kron (a b : Op α)
-  | kronTri (a b : Op α)
+  | kronTri (upper : Bool) (a b : Op α)   -- KroneckerProductTriangular(*factors, upper=…)
   | kronDiag (a b : Op α)
   | addedDiag (a d : Op α)
   | kronAddedDiag (a d : Op α)
@@ -79,7 +79,7 @@ mutual
     | dense n _ _ => n | diag n _ => n | constDiag n _ => n | identity n => n | zero n _ => n
     | tri _ t => t.rows | toep n _ => n | opq _ n _ _ => n
     | root r => r.rows | lowRankRoot r => r.rows | chol r => r.rows | cholU r => r.rows
-    | kron a b => a.rows * b.rows | kronTri a b => a.rows * b.rows | kronDiag a b => a.rows * b.rows
+    | kron a b => a.rows * b.rows | kronTri _ a b => a.rows * b.rows | kronDiag a b => a.rows * b.rows
     | addedDiag a _ => a.rows | kronAddedDiag a _ => a.rows | lrrAddedDiag a _ => a.rows
     | sum l => rowsL l | psdSum l => rowsL l | sumKron a _ => a.rows
     | matmul a _ => a.rows | mul a b => min a.rows b.rows | constMul a _ => a.rows
@@ -93,7 +93,7 @@ mutual
     | dense _ m _ => m | diag n _ => n | constDiag n _ => n | identity n => n | zero _ m => m
     | tri _ t => t.cols | toep n _ => n | opq _ _ m _ => m
     | root r => r.rows | lowRankRoot r => r.rows | chol r => r.rows | cholU r => r.rows
-    | kron a b => a.cols * b.cols | kronTri a b => a.cols * b.cols | kronDiag a b => a.rows * b.rows
+    | kron a b => a.cols * b.cols | kronTri _ a b => a.cols * b.cols | kronDiag a b => a.rows * b.rows
     | addedDiag a _ => a.cols | kronAddedDiag a _ => a.cols | lrrAddedDiag a _ => a.cols
     | sum l => colsL l | psdSum l => colsL l | sumKron a _ => a.cols
     -- (`MulLinearOperator._check_args`: both operands have the same shape)
@@ -107,7 +107,7 @@ end
 def rootCols : Op α → Nat
   | dense _ m _ => m | opq _ _ m _ => m | tri _ t => t.cols | diag n _ => n | constDiag n _ => n
   | identity n => n | zero _ m => m | toep n _ => n
-  | kron a b => a.cols * b.cols | kronTri a b => a.cols * b.cols | kronDiag a b => a.cols * b.cols
+  | kron a b => a.cols * b.cols | kronTri _ a b => a.cols * b.cols | kronDiag a b => a.cols * b.cols
   | matmul _ b => b.cols | constMul a _ => a.cols
   | o => o.cols
 
@@ -141,7 +141,7 @@ mutual
     | chol r => fun i j => sumN r.cols fun k => r.denote i k * r.denote j k
     | cholU r => fun i j => sumN r.rows fun k => r.denote k i * r.denote k j
     | kron a b => fun i j => a.denote (i / b.rows) (j / b.cols) * b.denote (i % b.rows) (j % b.cols)
-    | kronTri a b => fun i j => a.denote (i / b.rows) (j / b.cols) * b.denote (i % b.rows) (j % b.cols)
+    | kronTri _ a b => fun i j => a.denote (i / b.rows) (j / b.cols) * b.denote (i % b.rows) (j % b.cols)
     | kronDiag a b => fun i j => if i = j then diagOf a (i / b.rows) * diagOf b (i % b.rows) else 0
     | addedDiag a d => fun i j => a.denote i j + d.denote i j
     | kronAddedDiag a d => fun i j => a.denote i j + d.denote i j
@@ -266,7 +266,8 @@ mutual
     | .chol r => .chol r
     | .cholU r => .cholU r
     | .kron a b => .kron (transposeOp a) (transposeOp b)
-    | .kronTri a b => .kronTri (transposeOp a) (transposeOp b)
+    -- (`self.__class__(*transposed factors, **self._kwargs)`: the outer `upper` flag is kept as it is)
+    | .kronTri up a b => .kronTri up (transposeOp a) (transposeOp b)
     | .kronDiag a b => .kronDiag a b
     | .addedDiag a d => .addedDiag (transposeOp a) (transposeOp d)
     | .kronAddedDiag a d => .kronAddedDiag (transposeOp a) (transposeOp d)
@@ -387,7 +388,7 @@ def add : Op α → Op α → Except Err (Op α)
   | .lowRankRoot r, b =>
     if b.isDiag then mkAddedDiag .lrr (.lowRankRoot r) b else baseAdd (.lowRankRoot r) b
   | .kron x y, b => kronAdd (.kron x y) b
-  | .kronTri x y, b => kronAdd (.kronTri x y) b
+  | .kronTri up x y, b => kronAdd (.kronTri up x y) b
   | .addedDiag a d, b =>
     if b.isDiag then do let d' ← diagAdd d b; mkAddedDiag .plain a d'
     else do let a' ← add a b; mkAddedDiag .plain a' d
@@ -618,15 +619,18 @@ def clsName : Op α → String
   | lrrAddedDiag .. => "LowRankRootAddedDiag" | sum .. => "Sum" | psdSum .. => "PsdSum"
   | sumKron .. => "SumKronecker" | matmul .. => "Matmul" | mul .. => "Mul" | constMul .. => "ConstantMul"
 
+/-- orientation flag (`upper`) as printed in class trees. -/
+def flag (up : Bool) : String := if up then "[U]" else "[L]"
+
 mutual
   def tree : Op α → String
-    | tri _ t => "Triangular(" ++ t.tree ++ ")"
+    | tri up t => "Triangular" ++ flag up ++ "(" ++ t.tree ++ ")"
     | root r => "Root(" ++ r.tree ++ ")"
     | lowRankRoot r => "LowRankRoot(" ++ r.tree ++ ")"
-    | chol r => "Chol(" ++ r.tree ++ ")"
-    | cholU r => "Chol(" ++ r.tree ++ ")"
+    | chol r => "Chol[L](" ++ r.tree ++ ")"
+    | cholU r => "Chol[U](" ++ r.tree ++ ")"
     | kron a b => "KroneckerProduct(" ++ a.tree ++ "," ++ b.tree ++ ")"
-    | kronTri a b => "KroneckerProductTriangular(" ++ a.tree ++ "," ++ b.tree ++ ")"
+    | kronTri up a b => "KroneckerProductTriangular" ++ flag up ++ "(" ++ a.tree ++ "," ++ b.tree ++ ")"
     | kronDiag a b => "KroneckerProductDiag(" ++ a.tree ++ "," ++ b.tree ++ ")"
     | addedDiag a d => "AddedDiag(" ++ a.tree ++ "," ++ d.tree ++ ")"
     | kronAddedDiag a d => "KroneckerProductAddedDiag(" ++ a.tree ++ "," ++ d.tree ++ ")"
